@@ -269,6 +269,9 @@ Fixpoint dedup_from (seen : list rowkey) (l : list row) : list row :=
       if seen_mem (row_key r) seen then dedup_from seen t
       else r :: dedup_from (row_key r :: seen) t
   end.
+(** chunks as every engine producer emits them: at most 2048 logical rows *)
+Definition small_chunk (c : chunk) : Prop := chunk_wf c /\ row_count c <= 2048.
+Definition small_chunkb (c : chunk) : bool := chunk_wfb c && (row_count c <=? 2048).
 (** values on which the key is faithful (no float, no compound value) *)
 Definition key_scalar (v : value) : bool :=
   match v with VFloat _ | VList _ => false | _ => true end.
@@ -305,6 +308,11 @@ Definition agg_update (r : row) (f : aggfn) (st : Z) : Z :=
 Definition aggs_update (aggs : list aggfn) (r : row) (sts : list Z) : list Z :=
   map (fun p => agg_update r (fst p) (snd p)) (combine aggs sts).
 Definition aggs_init (aggs : list aggfn) : list Z := map (fun _ => 0) aggs.
+
+Definition nonnull_at (c : nat) (r : row) : bool :=
+  match nth_error r c with None | Some VNull => false | Some _ => true end.
+Definition count_key (keys : list rowkey) (k : rowkey) : Z :=
+  Z.of_nat (length (filter (rowkey_eqb k) keys)).
 
 (** [SimpleAggregateOperator]: state = done *)
 Definition simple_agg_next (aggs : list aggfn) (done : bool) (cs : list chunk)
@@ -403,3 +411,7 @@ Definition count_spec (s n : option Z) (rows : list row) : list row :=
     is planned; [WITH DISTINCT x ... RETURN x] plans a [DistinctOperator]. *)
 Definition return_distinct_query (rows : list row) : list row := rows_of (scan_chunks rows).
 Definition with_distinct_query (rows : list row) : list row := rows_of (drain_distinct (scan_chunks rows)).
+
+(** witnesses / fixtures used by theorems and by the run *)
+Definition cmp_col0 (op : binop) (z : Z) : expr := EBin op (EVar 0) (ELit (VInt z)).
+Definition int_rows (n : nat) : list row := map (fun i => [VInt (Z.of_nat i)]) (seq 0 n).
